@@ -217,6 +217,11 @@ def coq_obligations(ctx, spec):
     missing = sorted(f for f in needed if f in ctx.unbuilt)
     obs.append(dict(name="model and proof files of this property compile (full .vo build)", ok=not missing,
                     detail="not compiled: " + ", ".join(missing) if missing else ""))
+    if ctx.tier == "thorough":
+        ck = C.coqchk_all(ctx.tools.key)
+        obs.append(dict(name="coqchk (independent checker) accepts every compiled file of the development; axioms: none",
+                        ok=(ck["rc"] == 0 and ck["axioms"] == "<none>"),
+                        detail="coqchk rc=%s axioms=%s (%ss)" % (ck["rc"], ck["axioms"], ck["seconds"])))
     thms = spec.get("theorems") or []
     if thms:
         files = sorted(set(t["file"] for t in thms))
@@ -408,6 +413,13 @@ def run_cli(ctx, spec, obligations, listed):
     st = stage_cli.run(ctx.tools, ctx.seed, ctx.tier)
     corr_breaks, failures = [], []
     known_hits, notes, extra_eval = {}, [], 0
+    if ctx.pid == "C17":
+        gs = stage_gen.run(ctx.tools, ctx.seed, ctx.tier)
+        for cr in gs["cases"]:
+            extra_eval += 1
+            fails = O.o_c17_writer(cr)
+            if fails:
+                failures.append(dict(case=cr, fails=fails, families=sorted(cr["families"])))
     if ctx.pid == "C15":
         # regeneration over moq's own output, on the generator stage's in-place cases, against
         # the model's own prediction (L2Check.regen_stable)
